@@ -32,27 +32,36 @@ def disjuncts(test):
     return [test]
 
 
-def guard_label(test, selfname, extra=()):
-    """'false' when an ``if`` may legitimately skip the announcement on its false edge (all conjuncts are
-    hub-presence atoms or row-specific ones); 'true' for the negated early-return form; else None."""
-    allowed = set(a.replace('self', selfname or 'self') for a in HUB_ATOMS) | set(extra)
-    cs = [unparse(c) for c in conjuncts(test)]
-    if cs and all(c in allowed for c in cs):
-        return 'false'
-    # ``if not self.hub: return`` / ``if not a or not b: return``
-    ds = disjuncts(test)
-    neg = []
-    for d in ds:
-        if isinstance(d, ast.UnaryOp) and isinstance(d.op, ast.Not):
-            neg.append(unparse(d.operand))
-        elif isinstance(d, ast.Compare) and len(d.ops) == 1 and isinstance(d.ops[0], ast.Is) \
-                and isinstance(d.comparators[0], ast.Constant) and d.comparators[0].value is None:
-            neg.append(unparse(d.left) + ' is not None')
-        else:
+def guard_label(test, selfname, extra=(), fnode=None):
+    """Which edge of an ``if`` may legitimately skip the announcement: the edge that cannot be taken when every hub-presence
+    condition (and every row-specific extra guard) holds.  'false' / 'true', or None when the test involves anything else.
+
+    The test is read as a propositional formula (sa/cond.py) after expanding single-assignment locals, so
+    ``announce = self._broadcasting and self.data.hub is not None; ...; if announce:``, ``if not (a and b): return`` and the
+    plain ``if a and b:`` are all the same guard."""
+    from . import cond
+    from .util import expand_locals
+    t = expand_locals(fnode, test) if fnode is not None else test
+    f = cond.formula(t)
+    present = {}
+    for a in [x.replace('self', selfname or 'self') for x in HUB_ATOMS] + list(extra):
+        try:
+            lit = cond.formula(ast.parse(a, mode='eval').body)
+        except SyntaxError:
+            continue
+        if lit[0] == 'atom':
+            present[lit[1]] = True
+        elif lit[0] == 'not' and lit[1][0] == 'atom':
+            present[lit[1][1]] = False
+    # extras given as local names stay meaningful after expansion only if the name itself survives; also try the raw test
+    keys = cond.atoms(f)
+    if not keys or not keys <= set(present):
+        f = cond.formula(test)
+        keys = cond.atoms(f)
+        if not keys or not keys <= set(present):
             return None
-    if neg and all(n in allowed for n in neg):
-        return 'true'
-    return None
+    val = cond.evaluate(f, {k: present[k] for k in keys})
+    return 'false' if val else 'true'
 
 
 class Announcer(object):
@@ -133,7 +142,7 @@ class Announcer(object):
         pruned = set()
         for n in cfg.nodes():
             if cfg.kind[n] == 'if':
-                lab = guard_label(cfg.stmt[n].test, self.selfname, extra_guards)
+                lab = guard_label(cfg.stmt[n].test, self.selfname, extra_guards, self.func.node)
                 if lab:
                     pruned.add((n, lab))
         results = []
